@@ -66,6 +66,37 @@ def run(ctx, prog):
             return None if strip(p.term(p.val.fields[0])) == ('field', gate[0].ret, 0, 'Ok') else 'result is not the gated value'
         A.require('%s/result-passes-the-range-gate' % nm, paths, r_arith, replay=R('[arith]'))
 
+    # Duration constructors: the number of seconds is count * unit as a mathematical integer (u32 counts never saturate or
+    # wrap on the way).  Constructors that call each other are inlined; the final time::Duration constructor and its
+    # argument are read off the path and the identity is decided over all 2^32 counts.
+    UNIT = {'seconds': 1, 'minutes': 60, 'hours': 3600, 'days': 86400, 'weeks': 604800}
+    for nm, k in UNIT.items():
+        f = prog.one(r'timestamp::<impl at [^>]*>::%s$' % nm, sig=r'^u32')
+        paths, ex = A.paths(f, inline=r'timestamp::<impl at [^>]*>::(seconds|minutes|hours|days|weeks)$')
+
+        def r_dur(p, nm=nm, k=k):
+            if p.kind != 'return':
+                return 'panic ' + p.msg
+            t = strip(p.term())
+            while isinstance(t, tuple) and t and t[0] == 'agg' and len(t[3]) == 1:
+                t = strip(t[3][0])
+            if not (isinstance(t, tuple) and t[0] == 'app' and re.search(r'(^|::)(Signed)?Duration::(seconds|minutes|hours|days|weeks)$', t[1]) and len(t[2]) == 1):
+                return 'not built by a time::Duration unit constructor: %s' % term_str(t)[:120]
+            cs = [c for c in p.find_calls(r'(^|::)(Signed)?Duration::(seconds|minutes|hours|days|weeks)$')]
+            arg = cs[-1].argvals[0] if cs else None
+            if not isinstance(arg, VInt):
+                return 'constructor argument is not an integer expression of the count'
+            unit = UNIT[t[1].rsplit('::', 1)[1]]
+            pn = [n_ for n_, l_ in f.debug.items() if l_ == 1]
+            if not pn:
+                return 'count parameter has no debug name'
+            x = ex.sym_int(('leaf', pn[0]), 32)
+            a = z3.SignExt(64, arg.e) if arg.signed else z3.ZeroExt(128 - arg.bits, arg.e)
+            want = z3.ZeroExt(96, x.e) * z3.BitVecVal(k, 128)
+            return None if p.implies(a * z3.BitVecVal(unit, 128) == want) else \
+                '%s(n) is not n * %d seconds for every n (argument %s of %s)' % (nm, k, term_str(p.term(arg))[:80], t[1].rsplit('::', 1)[1])
+        A.require('Duration::%s/count-times-unit-without-saturation' % nm, paths, r_dur, replay=R('[duration]'))
+
     for nm, rx, sig in (('FromStr', r'timestamp::<impl at [^>]*>::from_str$', None),
                         ('TryFrom<&str>', r'timestamp::<impl at [^>]*>::try_from$', r'^&(\'_ )?str'),
                         ('TryFrom<String>', r'timestamp::<impl at [^>]*>::try_from$', r'^(\w+::)*String'),
